@@ -2,6 +2,8 @@ from ..rules.slots import BTM, TAGGING, BINCOUNTS
 
 SKIP = "                if cut_site_contig!=contig or cut_site_pos<start or cut_site_pos>=end: # End is exclusive\n"
 OVERLAYS = [
+    {'name': 'pre-fix F30: the job stops at the first molecule at or behind the end of its fetch window', 'kind': 'break', 'rules': ['C08-R2'],
+     'edits': [(TAGGING, "                if cut_site_pos>=fetch_end:\n                    continue\n", "                if cut_site_pos>=fetch_end:\n                    break\n")]},
     {'name': 'ownership end test > (site on the boundary owned by two jobs)', 'kind': 'break', 'rules': ['C08-R1'],
      'edits': [(TAGGING, SKIP, "                if cut_site_contig!=contig or cut_site_pos<start or cut_site_pos>end: # End is exclusive\n")]},
     {'name': 'ownership start test <= (site on the boundary owned by no job)', 'kind': 'break', 'rules': ['C08-R1'],
